@@ -2,12 +2,18 @@
    Proved for the listing model (mirror of src/error.rs `listing`): the lines shown are exactly the
    lines that intersect the reported range, with their 1-based numbers, and every marked section lies
    inside its (trimmed) line. The rendering and the overline column (characters, not bytes) are
-   compared with the implementation; that node ranges are token spans whose text re-parses to the
-   node, and that scoping / typing / lexing diagnostics mark exactly an identifier / a subexpression /
-   the symbol, is decided on the implementation with the extracted re-parser. *)
+   compared with the implementation. Proved for the parser model (Proofs/RangeProofs.v, an invariant of
+   every parse call through the skeleton interpreter, the hand-modelled functions and the memo table):
+   every node of an accepted parse carries the byte range from the first byte of its first token to the
+   last byte of its last token, the children's token intervals tile the parent's as the production
+   prescribes (parentheses widen only the parenthesised node), and the root spans the whole input - so
+   the range bookkeeping spread over the parse functions cannot drift. That the implementation's ranges
+   are the model's, that their text re-parses to the node, and that scoping / typing / lexing diagnostics
+   mark exactly an identifier / a subexpression / the symbol, is decided on the implementation with the
+   extracted re-parser. *)
 From Coq Require Import List ZArith NArith Bool Arith.
 Import ListNotations.
-Require Import Gram.Model.Token Gram.Model.Tokenizer Gram.Model.Listing Gram.Spec.ListingSpec Gram.Proofs.ListingProofs.
+Require Import Gram.Model.Token Gram.Model.Tokenizer Gram.Model.Listing Gram.Spec.ListingSpec Gram.Proofs.ListingProofs Gram.Model.Grammar Gram.Model.Parser Gram.Model.ParserPost Gram.Proofs.RangeProofs.
 
 Theorem C15_listing_lines_exact : forall cs rs re, map lineno (listing cs rs re) = spec_linenos cs rs re.
 Proof. exact listing_lines_exact. Qed.
@@ -29,3 +35,25 @@ Theorem C15_example :
 Proof. vm_compute. split; reflexivity. Qed.
 Check C15_example : _ /\ spec_linenos ex15 1 6 = [1; 2].
 Print Assumptions C15_example.
+
+(* node ranges of the parser model: token spans, tiled by the children as the production prescribes *)
+Theorem C15_tree_layout : forall toks memo t, fst (fst (parse_stage1 toks memo)) = S1Tree t -> layout toks t 0 (length toks).
+Proof. exact parsed_tree_layout. Qed.
+Check C15_tree_layout : forall toks memo t, fst (fst (parse_stage1 toks memo)) = S1Tree t -> layout toks t 0 (length toks).
+Print Assumptions C15_tree_layout.
+
+Theorem C15_every_node_spans_tokens : forall toks memo t, fst (fst (parse_stage1 toks memo)) = S1Tree t ->
+  every_node (node_spanned toks 0 (length toks)) t.
+Proof. exact parsed_tree_every_node_spans_tokens. Qed.
+Check C15_every_node_spans_tokens : forall toks memo t, fst (fst (parse_stage1 toks memo)) = S1Tree t ->
+  every_node (node_spanned toks 0 (length toks)) t.
+Print Assumptions C15_every_node_spans_tokens.
+
+Theorem C15_root_spans_input : forall toks memo t, fst (fst (parse_stage1 toks memo)) = S1Tree t -> toks <> [] ->
+  exists first last, nth_error toks 0 = Some first /\ nth_error toks (length toks - 1) = Some last /\
+                     prs (info t) = ps first /\ pre (info t) = pe last.
+Proof. exact parsed_tree_spans_input. Qed.
+Check C15_root_spans_input : forall toks memo t, fst (fst (parse_stage1 toks memo)) = S1Tree t -> toks <> [] ->
+  exists first last, nth_error toks 0 = Some first /\ nth_error toks (length toks - 1) = Some last /\
+                     prs (info t) = ps first /\ pre (info t) = pe last.
+Print Assumptions C15_root_spans_input.
